@@ -42,6 +42,7 @@ type Violation struct {
 	Events  []string          `json:"events,omitempty"`
 	Known   string            `json:"known,omitempty"`
 	Path    int               `json:"path"`
+	Covers  []string          `json:"covers,omitempty"`
 }
 
 // Config of one harness run.
@@ -79,6 +80,7 @@ type Result struct {
 	Merged     int
 	Truncated  bool
 	Samples    []string
+	Witnesses  []Violation
 	Wall       time.Duration
 	QSites     map[string][3]float64
 }
@@ -122,6 +124,8 @@ type Engine struct {
 	globals  map[*ssa.Global]Loc
 	uniq     map[int32]*Term
 	lb, ub   map[int32]uint64
+	twoVal   map[int32][2]uint64
+	excluded map[int32]uint64
 	hooks    map[string][]*ClosureV
 	prehooks map[string][]*ClosureV
 	spawned  []*ClosureV
@@ -132,6 +136,7 @@ type Engine struct {
 	curFn    *ssa.Function
 	stack    []*ssa.Function
 	choices  []uint64
+	pathCovers []string
 	merged   int
 	funcs    map[string]int
 	initDone map[*ssa.Package]bool
@@ -391,6 +396,14 @@ func (e *Engine) Assume(c *Term) {
 	e.sol.Assert(c)
 	e.dirty = true
 	e.intervalLearn(c, true)
+	if profileSites {
+		res := e.sh.res
+		res.mu.Lock()
+		st := res.QSites["assume@"+e.cur]
+		st[0]++
+		res.QSites["assume@"+e.cur] = st
+		res.mu.Unlock()
+	}
 }
 
 // ensureFeasible confirms that the current path condition is satisfiable.
@@ -689,9 +702,9 @@ func RunHarness(prog *ssa.Program, fn *ssa.Function, name string, cfg *Config) *
 		for k, v := range res.QSites {
 			l = append(l, kv{k, v})
 		}
-		sort.Slice(l, func(i, j int) bool { return l[i].v[1] > l[j].v[1] })
+		sort.Slice(l, func(i, j int) bool { return l[i].v[1]+l[i].v[0]/1e6 > l[j].v[1]+l[j].v[0]/1e6 })
 		for i, x := range l {
-			if i >= 25 {
+			if i >= 60 {
 				break
 			}
 			fmt.Fprintf(os.Stderr, "   site %-50s queries=%6.0f time=%7.1fs forks=%5.0f\n", x.k, x.v[0], x.v[1], x.v[2])
@@ -788,7 +801,21 @@ func (e *Engine) finishPath(out pathEnd) {
 	if len(res.Samples) < 3 && out.kind == "ok" {
 		res.Samples = append(res.Samples, e.sampleString())
 	}
+	wantWitness := out.kind == "ok" && len(res.Witnesses) < 2 && e.live()
 	res.mu.Unlock()
+	if wantWitness {
+		// a concrete instance of this passing path, replayed natively by the driver (translator validation)
+		w := e.extractModel(BoolC(true))
+		if len(w.Model) > 0 || len(e.inputs) == 0 {
+			w.Kind, w.Label = "witness", "passing path"
+			w.Covers = append([]string{}, e.pathCovers...)
+			res.mu.Lock()
+			if len(res.Witnesses) < 2 {
+				res.Witnesses = append(res.Witnesses, w)
+			}
+			res.mu.Unlock()
+		}
+	}
 	switch out.kind {
 	case "panic", "blocked", "oom", "unwind":
 		if out.kind == "unwind" && e.cfg.Params["unwind_is_violation"] != 1 {
@@ -852,6 +879,8 @@ func (e *Engine) runOnce() (out pathEnd) {
 	e.freshCnt = map[string]int{}
 	e.inputs = nil
 	e.uniq = map[int32]*Term{}
+	e.twoVal = map[int32][2]uint64{}
+	e.excluded = map[int32]uint64{}
 	e.lb = map[int32]uint64{}
 	e.ub = map[int32]uint64{}
 	e.globals = map[*ssa.Global]Loc{}
@@ -862,6 +891,7 @@ func (e *Engine) runOnce() (out pathEnd) {
 	e.steps = 0
 	e.depth = 0
 	e.choices = nil
+	e.pathCovers = nil
 	e.funcs = map[string]int{}
 	e.stack = nil
 	e.initDone = nil
@@ -1482,6 +1512,23 @@ func (e *Engine) intervalLearn(c *Term, outcome bool) {
 		if outcome {
 			e.intervalLearn(c.Args[0], true)
 			e.intervalLearn(c.Args[1], true)
+		} else {
+			// not(and(not(x = k1), not(x = k2))) is "x = k1 or x = k2": remember the two candidates
+			a, b := c.Args[0], c.Args[1]
+			if a.Op == "not" && b.Op == "not" && a.Args[0].Op == "=" && b.Args[0].Op == "=" {
+				x1, k1, _, ok1 := cmpConst(a.Args[0])
+				x2, k2, _, ok2 := cmpConst(b.Args[0])
+				if ok1 && ok2 && x1 == x2 {
+					e.twoVal[x1.id] = [2]uint64{k1, k2}
+					if u, ok := e.excluded[x1.id]; ok {
+						if u == k1 {
+							e.uniq[x1.id] = Const(x1.W(), k2)
+						} else if u == k2 {
+							e.uniq[x1.id] = Const(x1.W(), k1)
+						}
+					}
+				}
+			}
 		}
 		return
 	}
@@ -1510,8 +1557,20 @@ func (e *Engine) intervalLearn(c *Term, outcome bool) {
 		case "ge":
 			rel = "lt"
 		case "eq":
+			// x != k: if x is known to be one of two values, it is the other one
+			e.excluded[x.id] = k
+			if tv, ok := e.twoVal[x.id]; ok {
+				if tv[0] == k {
+					e.uniq[x.id] = Const(x.W(), tv[1])
+				} else if tv[1] == k {
+					e.uniq[x.id] = Const(x.W(), tv[0])
+				}
+			}
 			return
 		}
+	}
+	if rel == "eq" {
+		e.uniq[x.id] = Const(x.W(), k)
 	}
 	switch rel {
 	case "lt":
